@@ -153,6 +153,28 @@ class _Frame:
         self.returns = []
 
 
+def _without_continue(body):
+    """`if t: A; continue` followed by R, directly in a loop body, is `if t: A else: R` (other placements are left alone
+    and rejected by the caller)."""
+    out = []
+    for i, st in enumerate(body):
+        if isinstance(st, ast.If) and st.body and isinstance(st.body[-1], ast.Continue) and not any(isinstance(n, (ast.Break, ast.Continue, ast.For, ast.While)) for b in st.body[:-1] for n in ast.walk(b)):
+            rest = _without_continue(body[i + 1:])
+            orelse = _without_continue(st.orelse) + rest if st.orelse else rest
+            new = ast.If(test=st.test, body=(st.body[:-1] or [ast.Pass()]), orelse=orelse)
+            ast.copy_location(new, st)
+            out.append(new)
+            return out
+        if isinstance(st, ast.If) and st.orelse and isinstance(st.orelse[-1], ast.Continue) and not any(isinstance(n, (ast.Break, ast.Continue, ast.For, ast.While)) for b in st.orelse[:-1] + st.body for n in ast.walk(b)):
+            rest = _without_continue(body[i + 1:])
+            new = ast.If(test=st.test, body=st.body + rest, orelse=(st.orelse[:-1] or [ast.Pass()]))
+            ast.copy_location(new, st)
+            out.append(new)
+            return out
+        out.append(st)
+    return out
+
+
 class Flow:
     """Abstract interpreter producing provenance terms (see module docstring)."""
 
@@ -277,12 +299,14 @@ class Flow:
             it = self.ev(s.iter, env, fr, loops, guards)
             if s.orelse:
                 raise Unsupported("for/else in %s" % fr.fi.qualname)
-            for n in ast.walk(s):
-                if isinstance(n, (ast.Break, ast.Continue)):
-                    raise Unsupported("break/continue in a loop of %s" % fr.fi.qualname)
+            body = _without_continue(s.body)
+            for st_ in body:
+                for n in ast.walk(st_):
+                    if isinstance(n, (ast.Break, ast.Continue)):
+                        raise Unsupported("break/continue in a loop of %s" % fr.fi.qualname)
             self.event(kind="loop", iter=it, loops=loops, guards=guards, fn=fr.fi, node=s)
             self.assign(s.target, ("elem", it), env, fr, loops, guards)
-            self.block(s.body, env, fr, loops + (it,), guards)
+            self.block(body, env, fr, loops + (it,), guards)
             return True
         if isinstance(s, ast.Return):
             v = self.ev(s.value, env, fr, loops, guards) if s.value is not None else NONE
@@ -1682,6 +1706,15 @@ def rule_L5(ctx, L):
             why = "idx is %s, not the enumerate counter of the appending loop" % show(idx, 3)
         elif not start_ok:
             why = "enumerate does not start at 0"
+        else:
+            # numbered 0..n-1 without gaps: every pass of the counting loop appends (a test inside the loop that skips
+            # the append leaves a hole in the numbering; filtering belongs before the enumerate)
+            lev = [e for e in T.flow.events if e["kind"] == "loop" and e["iter"] == loop and e["fn"] is ev["fn"]]
+            if len(lev) != 1:
+                raise Unsupported("the numbering loop (%s) is entered %d times" % (lab, len(lev)))
+            inside = ev["guards"][len(lev[0]["guards"]):]
+            if inside:
+                why = "the data point is appended only when %s is %s, inside the loop whose enumerate counter numbers it: the identifiers have gaps (not 0..n-1)" % (show(inside[0][0], 3), bool(inside[0][1]))
         ctx.check(why is None, "L5", "idx = position in the appending loop, from 0 (%s)" % lab, where, why or "", construct=C, stmt="idx " + lab)
         if inner is None:
             continue
